@@ -120,6 +120,12 @@ def gen_donor(sess: Session, rng: random.Random, types: tuple, *, safe: bool, in
         ks = [k for k, m in enumerate(sess.pool) if m is not None and isinstance(m, types)
               and _indent_fits(m, indent, safe) and self_contained(m)]
         if ks:
+            # a pool node that lost children earlier: moving it on empties the store those deleted
+            # children still name
+            zs = getattr(sess, 'zombies', [])
+            hosts = [k for k in ks if any(getattr(z, 'token_store', None) is sess.pool[k].token_store for z in zs)]
+            if hosts and rng.random() < 0.6:
+                return {'pool': rng.choice(hosts)}
             return {'pool': rng.choice(ks)}
     t = rng.choice(types)
     if issubclass(t, models.RawTokenModel):
@@ -333,6 +339,11 @@ def make_donor(sess: Session, recipe: Any) -> Any:
             dead = False
         if not dead:
             raise Unresolvable('node is not a deleted one any more')
+        try:
+            if z.token_store is not None and len(z.token_store) == 0:
+                sess.stats['probe:deleted_donor_store_emptied'] += 1
+        except Exception:
+            pass
         return z
     if 'attached' in recipe:
         node = sess.resolve(recipe['attached'])
@@ -612,6 +623,10 @@ class Gen:
                 return {'op': 'set_wrapper', 't': {'r': ref['r'], 'p': ref['p'][:-1]}, 'm': m.name, 'v': {'wrapper_copy': src[0]}}
         if r0 < 0.5:
             return self.gen_seq(raw_only=True)
+        if r0 < 0.58:
+            op = self.gen_glued_removal()
+            if op is not None:
+                return op
         safe = self.safe
 
         def settable(n):
@@ -644,6 +659,39 @@ class Gen:
         if donor is None:
             return None
         return {'op': 'set_raw', 't': ref, 'm': m.name, 'v': donor}
+
+    def gen_glued_removal(self) -> Optional[dict]:
+        """Removal of an optional child that touches a neighbouring token without any blank between
+        ('!Assets:Cash', '2# 3 USD', 'USD{...}@ 1 X'): there the separator rules have nothing to take."""
+        cands = []
+        for ref, node in self.nodes():
+            if not isinstance(node, models.RawTreeModel) or isinstance(node, I.SPECIAL_EXPR):
+                continue
+            for m in I.members_of(node).values():
+                if m.kind != 'raw_optional' or (self.safe and m.name in UNSAFE_MEMBERS):
+                    continue
+                try:
+                    cur = getattr(node, m.name)
+                    if cur is None:
+                        continue
+                    st = cur.token_store
+                    if st is None or st is not node.token_store:
+                        continue
+                    glued = False
+                    for step, edge in ((st.get_prev, cur.first_token), (st.get_next, cur.last_token)):
+                        t = step(edge)
+                        while t is not None and not t.raw_text:
+                            t = step(t)
+                        if t is not None and type(t).__name__ not in ('Whitespace', 'Newline', 'Indent', 'BlockComment', 'InlineComment'):
+                            glued = True
+                    if glued:
+                        cands.append((ref, m.name))
+                except Exception:
+                    continue
+        if not cands:
+            return None
+        ref, name = self.rng.choice(cands)
+        return {'op': 'set_raw', 't': ref, 'm': name, 'v': None}
 
     def wrappers(self, raw_only: bool, kinds: Optional[set] = None) -> list[tuple[dict, Any, Any, I.Member]]:
         out = []
